@@ -84,11 +84,13 @@ let scoped_handle ts =
   let keys = rep nk names in
   let dotted l = String.concat "." (List.map (fun n -> string_of_int (int_of_nat n)) l) in
   let report = List.sort compare (List.map int_of_nat (redef_report fs)) in
-  let t = sc_table fs in
+  (* the sixteen primitive types are names 100..115 *)
+  let t = sc_table_with (List.init 16 (fun i -> nat_of_int (100 + i))) fs in
   let look k = match sc_lookup k t with
     | None -> "none"
     | Some (ScModule m) -> "module " ^ dotted m
-    | Some (ScEntity (f, p)) -> Printf.sprintf "entity %d %s" (int_of_nat f) (dotted p) in
+    | Some (ScEntity (f, p)) -> Printf.sprintf "entity %d %s" (int_of_nat f) (dotted p)
+    | Some (ScPrimitive p) -> Printf.sprintf "primitive %d" (int_of_nat p) in
   (if report = [] then "ok" else String.concat " " (List.map string_of_int report)) ^ " | " ^ String.concat " ; " (List.map look keys)
 
 let handle = function
